@@ -545,7 +545,6 @@ def evaluate(h, impl, lines, index, replies):
     # ---- C12
     spec_steps = ans[('spec',)].split('|') if ms else []
     prev_tracks, prev_oldest = [], None
-    escaped_before = False          # an exception raised by a subscriber has left an earlier operation of this history
     for i, (op, a) in enumerate(zip(h['ops'], impl)):
         k = op[0]
         if k in ('L', 'G'):
@@ -614,20 +613,10 @@ def evaluate(h, impl, lines, index, replies):
                     stale = [tr[0] for tr in a['tracks'] if now - tr[1] >= T]
                     fresh = [tr[0] for tr in dels if now - tr[1] < T]
                     if stale:
-                        # Known finding (findings_tracker.json): after a callback's exception ESCAPED an earlier
-                        # update()/cleanup(), oldest_timestamp may no longer be a lower bound (None, or later than a
-                        # track that is still in the table) and cleanup() returns early.  Only that situation gets the
-                        # signature of the finding; every other surviving expired track is a new violation.
-                        lus = [tr[1] for tr in a['tracks'] if tr[0] in stale]
-                        cache_stale = escaped_before and all(prev_oldest is None or (isinstance(prev_oldest, int) and lu < prev_oldest)
-                                                             for lu in lus)
-                        kind = 'not-expired:oldest_timestamp-not-a-lower-bound-after-callback-exception' if cache_stale else 'not-expired'
-                        bad.append(('C13', i, dict(sig, component='expiry', kind=kind),
+                        bad.append(('C13', i, dict(sig, component='expiry', kind='not-expired'),
                                     f'step {i}: after {sig["entry"]}() at t={now}/4 s with ttl {T}/4 s the tracks {stale} remain '
                                     f'although their age has reached the ttl: '
-                                    + ', '.join(f'{tr[0]}: age {now - tr[1]}/4 s' for tr in a['tracks'] if tr[0] in stale)
-                                    + (f' (oldest_timestamp was {prev_oldest} before the call: an earlier operation was left '
-                                       f'by an exception of a subscriber)' if cache_stale else '')))
+                                    + ', '.join(f'{tr[0]}: age {now - tr[1]}/4 s' for tr in a['tracks'] if tr[0] in stale)))
                     if fresh:
                         bad.append(('C13', i, dict(sig, component='expiry', kind='wrongly-expired'),
                                     f'step {i}: at t={now}/4 s with ttl {T}/4 s expiry removed {fresh} whose age is below the ttl'))
@@ -665,8 +654,6 @@ def evaluate(h, impl, lines, index, replies):
                 if tr[0] not in ms:
                     bad.append(('C15', i, dict(sig, component='events', kind='foreign-mmsi'), f'step {i}: event for unseen MMSI {tr[0]}'))
         prev_tracks, prev_oldest = a['tracks'], a['oldest']
-        if a.get('from_cb') and k in ('U', 'C'):      # Proofs/TrackerCbProofs.v step_ok: pop_track may raise anything
-            escaped_before = True
     # ---- C14
     for i, (op, a) in enumerate(zip(h['ops'], impl)):
         if op[0] == 'L' and op[1] >= 0:
@@ -855,11 +842,6 @@ def check_histories(ctx, prop, hs, queries_only_for=('C14',), sample_every=401, 
                 if key in seen:
                     continue
                 seen.add(key)
-                if 'after-callback-exception' in sig.get('kind', ''):
-                    # the recorded finding: report a few histories per signature, count the rest
-                    rep.count('known-finding:' + sig['kind'] + ':' + sig['entry'] + ':' + sig['mode'])
-                    if rep.dist.get('known-finding:' + sig['kind'] + ':' + sig['entry'] + ':' + sig['mode'], 0) > 3:
-                        continue
                 h2 = h
                 if key not in shrunk and len(shrunk) < 6:
                     shrunk.add(key)
@@ -1231,11 +1213,6 @@ def run_common(ctx, prop):
         exhaustive(ctx, prop, 5)
         if raising:
             exhaustive(ctx, prop, 4, behs=ENUM_BEHS)
-    if (ctx.broken or ctx.rep.disagreements) and ctx.rep.violations and not new_violations(ctx) and hasattr(ctx, 'escalated'):
-        # tools/check.py starts the hunt only when there is no violation at all; the hits of the recorded finding
-        # (which the unchanged code shows as well) must not keep it from looking for a failing input
-        ctx.escalated = True
-        hunt_common(ctx, prop)
 
 
 def _worker(job):
@@ -1289,19 +1266,14 @@ def exhaustive(ctx, prop, max_len, behs=None):
                               + f' ({total} histories)')
 
 
-def new_violations(ctx):
-    """violations other than the recorded finding (which also occurs on the unchanged code)"""
-    return [v for v in ctx.rep.violations if 'after-callback-exception' not in (v.get('signature') or {}).get('kind', '')]
-
-
 def hunt_common(ctx, prop):
     """Something no longer checks: all histories up to length 5 over 2 MMSIs x 3 timestamps, then long random ones."""
     exhaustive(ctx, prop, 5)
-    if new_violations(ctx):
+    if ctx.rep.violations:
         return
     if prop != 'C12':
         exhaustive(ctx, prop, 4, behs=ENUM_BEHS)
-        if new_violations(ctx):
+        if ctx.rep.violations:
             return
     rng = ctx.rng
     hs = [gen_history(rng, 'ttl' if i % 2 else 'mixed', with_queries=prop == 'C14', n_ops=rng.choice([30, 60]),
